@@ -18,6 +18,7 @@ CONSTANTS
   PolyDeg <- c_PolyDeg
   DiffK <- c_DiffK
   MaxDeg <- c_MaxDeg
+  EvExp <- c_EvExp
   Invalid <- c_Invalid
   MaxHist <- c_MaxHist
   RunActs <- c_RunActs
@@ -29,6 +30,7 @@ CONSTANTS
   EmitMod <- c_EmitMod
   EmitRes <- c_EmitRes
   EmitSmall <- c_EmitSmall
+  EmitFilter <- c_EmitFilter
 INVARIANT TypeOK
 INVARIANT EmitInv
 CHECK_DEADLOCK FALSE
